@@ -97,8 +97,55 @@ def do_eval(sid, tier="quick"):
     return 0
 
 
+def do_recheck(sid, tier="quick"):
+    """an already confirmed change: only run the owning check against the changed tree again and refresh the record"""
+    d = os.path.join(SEED, sid)
+    pid = sid.split("-")[0]
+    meta = json.load(open(os.path.join(d, "meta.json")))
+    ev = meta.get("evaluation") or {}
+    if not ev.get("confirmed"):
+        return do_eval(sid, tier)
+    wt = "/tmp/seedrun_" + sid
+    sh(["git", "-C", "/repo", "worktree", "remove", "--force", wt])
+    rc, out = sh(["git", "-C", "/repo", "worktree", "add", "--detach", wt, "HEAD"])
+    if rc != 0:
+        print(out)
+        return 2
+    try:
+        rc, out = sh(["git", "apply", os.path.join(d, "patch.diff")], cwd=wt)
+        if rc != 0:
+            ev["patch_applies"] = False
+            ev["apply_error"] = out[-500:]
+            ev["detected"] = None
+        else:
+            evdir = wt + "_evidence"
+            os.makedirs(evdir, exist_ok=True)
+            env = dict(ENV, VERIF_REPO=wt, VERIF_EVID=evdir)
+            t0 = time.time()
+            rc, out = sh([os.path.join(VERIF, "check"), pid, tier], cwd=VERIF, env=env, timeout=6000)
+            viol = [l for l in out.splitlines() if l.startswith("VIOLATION")]
+            detail = [l.strip() for l in out.splitlines() if l.startswith("  ") and len(l) > 10][:3]
+            ev["check"] = {"cmd": "VERIF_REPO=<changed tree> ./check %s %s" % (pid, tier), "exit": rc, "violations": len(viol),
+                           "first": detail, "wall_s": round(time.time() - t0, 1)}
+            ev["detected"] = rc == 1 and len(viol) > 0
+            if rc == 2:
+                ev["check"]["tail"] = out[-600:]
+            shutil.rmtree(evdir, ignore_errors=True)
+        ev["at"] = time.strftime("%Y-%m-%d %H:%M:%S")
+        ev["repo_head"] = sh(["git", "-C", "/repo", "log", "--format=%h", "-1"])[1].strip()
+        meta["evaluation"] = ev
+        json.dump(meta, open(os.path.join(d, "meta.json"), "w"), indent=1)
+        print(sid, json.dumps({k: v for k, v in ev.items() if k in ("confirmed", "detected", "check")})[:400])
+    finally:
+        sh(["git", "-C", "/repo", "worktree", "remove", "--force", wt])
+        shutil.rmtree(wt, ignore_errors=True)
+    return 0
+
+
 if __name__ == "__main__":
     if sys.argv[1] == "import":
         do_import(sys.argv[2], sys.argv[3])
+    elif sys.argv[1] == "recheck":
+        sys.exit(do_recheck(sys.argv[2], sys.argv[3] if len(sys.argv) > 3 else "quick"))
     elif sys.argv[1] == "eval":
         sys.exit(do_eval(sys.argv[2], sys.argv[3] if len(sys.argv) > 3 else "quick"))
